@@ -99,6 +99,11 @@ def truthiness_on_optional(ctx, rule: str, modules: list[str], what: str = "", o
                     t = _returns_optional(prog, m, cls, s.value)
                     if t:
                         ty[s.targets[0].id] = t
+                if isinstance(s, ast.Assign) and len(s.targets) == 1 and isinstance(s.targets[0], ast.Name) and isinstance(s.value, ast.Attribute) \
+                        and s.value.attr in fields:
+                    ty[s.targets[0].id] = fields[s.value.attr]           # a local alias of an optional field
+                if isinstance(s, ast.NamedExpr) and isinstance(s.value, ast.Attribute) and s.value.attr in fields:
+                    ty[s.target.id] = fields[s.value.attr]
                 if isinstance(s, ast.NamedExpr) and isinstance(s.value, ast.Call):
                     t = _returns_optional(prog, m, cls, s.value)
                     if t:
@@ -216,6 +221,113 @@ def iterable_param_reuse(ctx, rule: str, modules: list[str], only=None) -> int:
     return n
 
 
+MUTABLE_CTORS = {"dict", "list", "set", "defaultdict", "OrderedDict", "Counter", "deque", "bytearray"}
+MUTATORS = {"append", "extend", "insert", "add", "update", "setdefault", "pop", "popitem", "clear", "remove", "discard", "appendleft", "sort", "reverse"}
+MEMO_DECORATORS = {"cached_property", "lru_cache", "cache"}
+
+
+def _mutable_display(v) -> bool:
+    if isinstance(v, (ast.Dict, ast.List, ast.Set, ast.ListComp, ast.DictComp, ast.SetComp)):
+        return True
+    return isinstance(v, ast.Call) and u(v.func).split(".")[-1] in MUTABLE_CTORS
+
+
+def _self_attr_mutations(fn, selfname: str) -> dict[str, ast.AST]:
+    """attribute -> first statement mutating `self.<attr>` in place"""
+    out: dict[str, ast.AST] = {}
+
+    def is_self_attr(e):
+        return isinstance(e, ast.Attribute) and isinstance(e.value, ast.Name) and e.value.id == selfname
+    for n in ast.walk(fn):
+        tgts = []
+        if isinstance(n, ast.Assign):
+            tgts = n.targets
+        elif isinstance(n, (ast.AugAssign, ast.AnnAssign)):
+            tgts = [n.target]
+        elif isinstance(n, ast.Delete):
+            tgts = n.targets
+        for t in tgts:
+            if isinstance(t, ast.Subscript) and is_self_attr(t.value):
+                out.setdefault(t.value.attr, n)
+            if isinstance(n, ast.AugAssign) and is_self_attr(t):
+                out.setdefault(t.attr, n)       # `self.x += [..]` mutates the shared list in place
+        if isinstance(n, ast.Call) and isinstance(n.func, ast.Attribute) and n.func.attr in MUTATORS and is_self_attr(n.func.value):
+            out.setdefault(n.func.value.attr, n)
+    return out
+
+
+def shared_class_state(ctx, rule: str, modules: list[str]) -> int:
+    """a mutable container bound in a class body is one object shared by all instances: if methods fill it through `self` and no
+    method gives each instance its own, what one instance records shows up in every other"""
+    prog = ctx.program
+    n = 0
+    for mn in modules:
+        m = prog.module(mn)
+        for c in m.classes.values():
+            names = c.base_names()
+            if c.is_dataclass or names & {"BaseModel", "ConfiguredBaseModel", "Enum", "Protocol", "TypedDict", "NamedTuple"}:
+                continue        # dataclasses reject mutable defaults, pydantic copies them
+            cand: dict[str, ast.AST] = {k: v for k, v in c.class_assigns.items() if _mutable_display(v)}
+            for f in c.fields:
+                if f.node.value is not None and _mutable_display(f.node.value) and "ClassVar" not in u(f.node.annotation):
+                    cand[f.name] = f.node.value
+            if not cand:
+                continue
+            rebound: set[str] = set()
+            mutated: dict[str, tuple[str, ast.AST]] = {}
+            for k in c.mro:
+                for name, fn in k.methods.items():
+                    if not fn.args.args:
+                        continue
+                    sn = fn.args.args[0].arg
+                    for x in ast.walk(fn):
+                        if isinstance(x, (ast.Assign, ast.AnnAssign)):
+                            for t in (x.targets if isinstance(x, ast.Assign) else [x.target]):
+                                if isinstance(t, ast.Attribute) and isinstance(t.value, ast.Name) and t.value.id == sn:
+                                    rebound.add(t.attr)
+                    for a, st in _self_attr_mutations(fn, sn).items():
+                        mutated.setdefault(a, (name, st))
+            for a, v in cand.items():
+                n += 1
+                if a in mutated and a not in rebound:
+                    who, st = mutated[a]
+                    ctx.fail(rule, f"{c.qualname}.{a}: container shared by all instances", m.path, getattr(st, "lineno", c.node.lineno),
+                             f"`{a} = {u(v)[:40]}` in the class body is a single object; `{who}` fills it through self and no method rebinds it per "
+                             f"instance, so every {c.name} sees what every other one recorded", st)
+                else:
+                    ctx.ok(rule, f"{c.qualname}.{a}", "class-level container not filled through self" if a not in mutated else "rebound per instance")
+    return n
+
+
+def memo_on_mutable(ctx, rule: str, modules: list[str]) -> int:
+    """a memoised attribute computed from fields that can be reassigned keeps answering for the old field values"""
+    prog = ctx.program
+    n = 0
+    for mn in modules:
+        m = prog.module(mn)
+        for c in m.classes.values():
+            for name, fn in c.methods.items():
+                decos = {u(d.func if isinstance(d, ast.Call) else d).split(".")[-1] for d in fn.decorator_list}
+                if not decos & MEMO_DECORATORS or not fn.args.args:
+                    continue
+                n += 1
+                sn = fn.args.args[0].arg
+                settable = {}
+                for k in c.mro:
+                    if k.is_dataclass and not k.dataclass_kwargs.get("frozen"):
+                        for f in k.fields:
+                            if not f.classvar:
+                                settable[f.name] = k
+                reads = [x for x in ast.walk(fn) if isinstance(x, ast.Attribute) and isinstance(x.value, ast.Name) and x.value.id == sn and x.attr in settable]
+                if reads:
+                    ctx.fail(rule, f"{c.qualname}.{name}: memoised over reassignable fields", m.path, reads[0].lineno,
+                             f"`{name}` is computed once per object from `self.{reads[0].attr}`, a field of the non-frozen dataclass "
+                             f"{settable[reads[0].attr].name}: after the field is reassigned the memo still answers for the old value", fn)
+                else:
+                    ctx.ok(rule, f"{c.qualname}.{name}", "memo reads no reassignable field directly")
+    return n
+
+
 SER = {"_to_serial", "_from_serial", "_constrain_offset", "_deserialize_offset", "_order_port_offset", "_hierarchy_order", "to_json", "load_json",
        "get_meta", "_serialize_node", "_serialize_link"}
 NOT_STORE = SER | {"resolve_extensions", "to_model", "render_dot", "store_dot"}
@@ -245,7 +357,8 @@ ANCHORS: dict[str, dict[str, set | None]] = {
     "C13": {"hugr.build.dfg": ALL, "hugr.build.cfg": ALL, "hugr.build.cond_loop": ALL, "hugr.build.tracked_dfg": {"tracked_wire"},
             "hugr.ops": {"__init__", "_check_complete"}},
     "C14": {"hugr.val": ALL, "hugr.std.int": ALL, "hugr.std.float": ALL, "hugr.std.prelude": ALL, "hugr.std.collections.array": ALL,
-            "hugr.std.collections.list": ALL, "hugr.std.collections.static_array": ALL, "hugr.build.dfg": {"load", "add_const"}},
+            "hugr.std.collections.list": ALL, "hugr.std.collections.static_array": ALL, "hugr.build.dfg": {"load", "add_const"},
+            "hugr.ops": {"port_kind", "num_out"}},
     "C15": {"hugr.build.tracked_dfg": ALL, "hugr.build.dfg": {"add", "add_op", "extend"}},
     "C16": {"hugr.hugr.node_port": ALL, "hugr.hugr.base": {"_add_node", "add_node", "_update_port_count", "_update_node_outs"},
             "hugr.build.dfg": {"add_op", "call", "load", "add", "extend", "_set_parent_output_count"}},
@@ -275,3 +388,8 @@ def arm(ctx, prop: str | None = None) -> None:
     ctx.ok(l1, f"{prop}: optional-typed values in {len(mods)} anchor modules", f"{n1} truthiness uses flagged")
     n2 = iterable_param_reuse(ctx, l2, mods, only=only)
     ctx.ok(l2, f"{prop}: iterable parameters in {len(mods)} anchor modules", f"{n2} parameters inspected")
+    l3 = f"{prop}.L3"
+    ctx.rule(l3, "no per-instance state kept in a container bound in the class body, and no memo over reassignable dataclass fields (classes of the anchor modules)", floor=1)
+    n3 = shared_class_state(ctx, l3, mods)
+    n4 = memo_on_mutable(ctx, l3, mods)
+    ctx.ok(l3, f"{prop}: classes of {len(mods)} anchor modules", f"{n3} class-level containers, {n4} memoised attributes inspected")
